@@ -9,7 +9,7 @@ from ..util import all_shapes, fmt_vec, HookAcc
 CLAIM = dict(
     technique="runtime monitoring: sanitizer-instrumented execution of every rearranging view on label arrays, NumPy reference oracle over recorded (shape, every element), involution laws on recorded results",
     text="Every op is executed on dynamic ndarrays filled with unique labels for all source shapes of dim 0..4 / small extents and all valid arguments of the quantifier (all factorisations incl. each position of one -1, all permutations, all valid negative/positive axes and axis lists); shape and every element read lazily through view(i...) are compared with NumPy on the same labels; transpose(p) then transpose(p^-1) and flip twice must restore the source. ASan/UBSan/libstdc++ assertions and the bounds hooks watch the same executions. Held-on-observed.",
-    note="Trusted: NumPy as the reference; the harness' own odometer for element reads; only the run-time (dynamic container) argument kinds are exercised here - other kinds are C09's business.",
+    note="Trusted: NumPy as the reference; the harness' own odometer for element reads; run-time (dynamic container) argument kinds, plus compile-time axes (meta::ct_v<k>) for flip / expand_dims / swapaxes / moveaxis / transpose on a source of compile-time dimension 3 and on a dynamic source; the remaining kinds are C09's business.",
     ref="DESIGN.md 4/C03")
 HARNESS = ["c03_a", "c03_b", "c03_ct"]
 TARGETS_QUICK = [("c03_a", "asan"), ("c03_b", "asan"), ("c03_ct", "asan")]
